@@ -151,7 +151,10 @@ def make(d, route):
     """route: ('obj',) | ('xml', style, od, comments)"""
     if route[0] == "obj":
         return build(d)
-    return load(d, style=route[1], od=route[2], comments=route[3] if len(route) > 3 else False)
+    kw = {}
+    if len(route) > 4 and route[4] == "rev":
+        kw["corder"] = list(reversed(d["corder"]))        # descendants before ancestors, nested containers after their users
+    return load(d, style=route[1], od=route[2], comments=route[3] if len(route) > 3 else False, **kw)
 
 
 # ------------------------------------------------------------------------------------------ observation
